@@ -6,6 +6,6 @@ PROFILE = {"p_day": 0.06, "p_restart": 0.07, "p_foreign": 0.01, "big_p": 0.08}
 
 
 def run(ctx):
-    return rotcheck.run_property(ctx, "C05", PROFILE, quick=400, thorough=40000,
+    return rotcheck.run_property(ctx, "C05", PROFILE, quick=400, thorough=15000,
                                  nontrivial=lambda a: a.stats["rotations"] >= 2 and (a.stats["restarts"] >= 1 or a.stats["compressions"] >= 1),
                                  rule="non-trivial = >= 2 rotations and (>= 1 restart or >= 1 compression)")
